@@ -206,8 +206,12 @@ class GrandCanonical(
 
     def save_state(self) -> None:
         """Save the current state of the context and update move labels."""
-        for move_storage in self.moves.values():
-            move_storage.move.on_atoms_changed(
+        unique_moves = {
+            id(move_storage.move): move_storage.move
+            for move_storage in self.moves.values()
+        }
+        for move in unique_moves.values():
+            move.on_atoms_changed(
                 self.context._added_indices, self.context._deleted_indices
             )
 
